@@ -3,6 +3,7 @@
 package sm2
 
 import (
+	"bytes"
 	"fmt"
 	"math/big"
 	"strings"
@@ -311,4 +312,60 @@ func TestVerifC01(t *testing.T) {
 			c01run(r, c)
 		}
 	}
+	// the caller REUSES its buffers (one array each for the private key, the public coordinates and the digest,
+	// overwritten in place as the caller moves from key to key) and KEEPS the signatures it was given: each is
+	// verified right away and again after everything else has run.
+	{
+		lr := hk.NewRNG(seed, "c01reuse")
+		var pb, xb, yb, eb [32]byte
+		type kept struct {
+			ki      int
+			e, r, s []byte
+			r0, s0  []byte
+		}
+		var ds []*big.Int
+		for i := 0; i < 4; i++ {
+			ds = append(ds, randScalar(lr))
+		}
+		var sigs []kept
+		load := func(ki int, e []byte) {
+			P := refPub(ds[ki])
+			copy(pb[:], ref.B32(ds[ki]))
+			copy(xb[:], ref.B32(P.X))
+			copy(yb[:], ref.B32(P.Y))
+			copy(eb[:], e)
+		}
+		for step := 0; step < hk.N(160, 1600); step++ {
+			ki := lr.Intn(len(ds))
+			e := lr.Bytes(32)
+			load(ki, e)
+			rr, ss, err := SignHashed(lr, pb[:], eb[:])
+			if err != nil {
+				r.Violation("sign-error-on-valid-input:reused-buffers", hk.D{"priv": hk.Hex(pb[:]), "e": hk.Hex(e), "err": err.Error()})
+				continue
+			}
+			ok, verr := VerifyHashed(xb[:], yb[:], eb[:], rr, ss)
+			if !ok || verr != nil || !ref.SM2Verify(xb[:], yb[:], e, rr, ss) {
+				r.Violation("own-signature-rejected:caller-reuses-its-buffers", hk.D{"priv": hk.Hex(pb[:]), "e": hk.Hex(e), "r": hexOrNil(rr), "s": hexOrNil(ss), "err": errStr(verr), "step": step, "key_index": ki})
+			}
+			sigs = append(sigs, kept{ki, e, rr, ss, append([]byte{}, rr...), append([]byte{}, ss...)})
+			// now and then: an EARLIER signature (other key, other digest) verified through the same buffers
+			if step%3 == 2 {
+				o := sigs[lr.Intn(len(sigs))]
+				load(o.ki, o.e)
+				ok, verr = VerifyHashed(xb[:], yb[:], eb[:], o.r, o.s)
+				if !ok || verr != nil {
+					r.Violation("own-signature-rejected:earlier-signature-verified-later-through-reused-buffers", hk.D{"e": hk.Hex(o.e), "r_now": hexOrNil(o.r), "r_returned": hk.Hex(o.r0), "s_now": hexOrNil(o.s), "s_returned": hk.Hex(o.s0), "err": errStr(verr), "step": step, "key_index": o.ki})
+				}
+			}
+			r.Eval("hashed:reused-buffers")
+		}
+		for i, o := range sigs {
+			if !bytes.Equal(o.r, o.r0) || !bytes.Equal(o.s, o.s0) {
+				r.Violation("signature-handed-out-earlier-changed-by-later-calls", hk.D{"call_number": i, "r_now": hk.Hex(o.r), "r_returned": hk.Hex(o.r0), "s_now": hk.Hex(o.s), "s_returned": hk.Hex(o.s0)})
+				break
+			}
+		}
+	}
+
 }
